@@ -3,6 +3,8 @@
 package main
 
 import (
+	stdcontext "context"
+	"encoding/base64"
 	"encoding/json"
 	"fmt"
 	"io"
@@ -38,7 +40,9 @@ type c08In struct {
 	Data     string `json:"data"`               // value | nil | resp:<code> | notimpl | custom | err:<code> | err:plain | err:composite:<code>
 	Auth     string `json:"auth,omitempty"`     // "" | basic
 	Realm    Bs     `json:"realm,omitempty"`
-	Attempt  string `json:"attempt,omitempty"`  // none | bad | good
+	Attempt  string `json:"attempt,omitempty"`  // none | bad | good (SetBasicAuth u:<attempt>) | raw (the Authorization header is Authz as it stands)
+	Authz    Bs     `json:"authz,omitempty"`    // raw: value of the Authorization header (may be empty: header present, no value)
+	Variant  string `json:"variant,omitempty"`  // "" BasicAuthRealm | ctx BasicAuthRealmCtx | default BasicAuth | default-ctx BasicAuthCtx (the last two: realm not configurable)
 	ErrCode  int    `json:"err_code,omitempty"` // code of the error the authentication function returns
 	// direct only
 	Arg         []Bs   `json:"arg,omitempty"`          // produces argument of Respond
@@ -237,13 +241,76 @@ func c08CoqData(s string) string {
 }
 
 func c08Authenticator(in c08In) runtime.Authenticator {
-	return security.BasicAuthRealm(string(in.Realm), func(u, p string) (interface{}, error) {
+	plain := func(u, p string) (interface{}, error) {
 		if p == "good" {
 			return "principal", nil
 		}
 		return nil, errors.New(int32(in.ErrCode), "bad credentials")
-	})
+	}
+	withCtx := func(ctx stdcontext.Context, u, p string) (stdcontext.Context, interface{}, error) {
+		pr, err := plain(u, p)
+		return ctx, pr, err
+	}
+	switch in.Variant {
+	case "ctx":
+		return security.BasicAuthRealmCtx(string(in.Realm), withCtx)
+	case "default":
+		return security.BasicAuth(plain)
+	case "default-ctx":
+		return security.BasicAuthCtx(withCtx)
+	}
+	return security.BasicAuthRealm(string(in.Realm), plain)
 }
+
+// c08Realm is the realm the authenticator of the case is configured with ("" = none given).
+func c08Realm(in c08In) string {
+	if strings.HasPrefix(in.Variant, "default") {
+		return ""
+	}
+	return string(in.Realm)
+}
+
+// c08SetAuth puts the credentials of the case on the request.
+func c08SetAuth(req *http.Request, in c08In) {
+	switch in.Attempt {
+	case "bad", "good":
+		req.SetBasicAuth("u", in.Attempt)
+	case "raw":
+		req.Header["Authorization"] = []string{string(in.Authz)}
+	}
+}
+
+// c08AttemptKind says what the request of the case presents to a basic authenticator. Whether an Authorization
+// header yields a user and a password is net/http's decision (Request.BasicAuth, used here as the oracle):
+// none = no header (or an empty one), good / bad = credentials the authentication function of the case accepts / refuses,
+// malformed = a header of the Basic scheme without usable credentials, foreign = a header of another scheme.
+func c08AttemptKind(in c08In) string {
+	probe := &http.Request{Header: http.Header{}}
+	c08SetAuth(probe, in)
+	h := probe.Header.Get("Authorization")
+	if h == "" {
+		return "none"
+	}
+	if _, p, ok := probe.BasicAuth(); ok {
+		if p == "good" {
+			return "good"
+		}
+		return "bad"
+	}
+	scheme := h
+	if i := strings.IndexAny(h, " \t"); i >= 0 {
+		scheme = h[:i]
+	}
+	if strings.EqualFold(scheme, "Basic") {
+		return "malformed"
+	}
+	return "foreign"
+}
+
+var c08CoqAttempt = map[string]string{"none": "NoCreds", "bad": "BadCreds", "good": "GoodCreds", "malformed": "MalformedCreds", "foreign": "ForeignScheme"}
+
+// c08DirectAuth: a direct case in which a basic authenticator examines the request before Respond is called.
+func c08DirectAuth(in c08In) bool { return len(in.Realm) > 0 || in.Attempt != "" || in.Variant != "" }
 
 func (c08) Run(inAny any) any {
 	in := inAny.(c08In)
@@ -397,8 +464,7 @@ func (c08) Coq(inAny any, obsAny any) string {
 	if in.Kind == "serve" {
 		auth := "NoAuth"
 		if in.Auth == "basic" {
-			att := map[string]string{"none": "NoCreds", "bad": "BadCreds", "good": "GoodCreds"}[in.Attempt]
-			auth = fmt.Sprintf("(Basic %s %s %s)", coqBytes(string(in.Realm)), att, coqNatBig(in.ErrCode))
+			auth = fmt.Sprintf("(Basic %s %s %s)", coqBytes(c08Realm(in)), c08CoqAttempt[c08AttemptKind(in)], coqNatBig(in.ErrCode))
 		}
 		return fmt.Sprintf("CServe %s %s %s %s %s %s %s %s %s %s %s %s",
 			coqBytes(string(obs.Default)), coqBytesList(bsList(obs.Registered)), coqBytesList(bsList(in.Produces)), coqBytesList(bsList(obs.RouteProd)),
@@ -416,9 +482,13 @@ func (c08) Coq(inAny any, obsAny any) string {
 	if obs.Cached != nil {
 		cached = "(Some " + coqBytes(string(*obs.Cached)) + ")"
 	}
-	return fmt.Sprintf("CDirect %s %s %s %s %s %s %s %s %s %s %s",
+	dauth := "None"
+	if c08DirectAuth(in) {
+		dauth = fmt.Sprintf("(Some (%s, %s))", coqBytes(c08Realm(in)), c08CoqAttempt[c08AttemptKind(in)])
+	}
+	return fmt.Sprintf("CDirect %s %s %s %s %s %s %s %s %s %s %s %s",
 		coqBytes(string(obs.Default)), coqBytesList(bsList(obs.Registered)), coqBytesList(bsList(in.Arg)), route, cached,
-		coqBytesList(bsList(in.Lines)), head, coqBytes(string(obs.Marker)), c08CoqData(in.Data), coqBytes(tag), c08CoqObs(obs))
+		coqBytesList(bsList(in.Lines)), head, coqBytes(string(obs.Marker)), dauth, c08CoqData(in.Data), coqBytes(tag), c08CoqObs(obs))
 }
 
 func (c08) Classify(inAny any, obsAny any) []string { return nil }
@@ -473,12 +543,22 @@ func (c08) Category(inAny any, obsAny any) (string, bool) {
 		if obs.Marker != "" {
 			extra += "+marker"
 		}
+		if c08DirectAuth(in) {
+			extra += "/basic-" + c08AttemptKind(in) + c08VariantLabel(in)
+		}
 	} else if in.Auth == "basic" {
-		extra = "/basic-" + in.Attempt
+		extra = "/basic-" + c08AttemptKind(in) + c08VariantLabel(in)
 	}
 	cat := fmt.Sprintf("%s/%s/%s/%s%s/%s/%s/def-%s%s", in.Kind, in.Method, code, data, params, acc, outcome, in.Defaults, extra)
 	nontrivial := len(obs.Calls) > 0 || len(obs.Errs) > 0 || len(obs.RouteProd) >= 2 || len(in.Arg) >= 2
 	return cat, nontrivial
+}
+
+func c08VariantLabel(in c08In) string {
+	if in.Variant == "" {
+		return ""
+	}
+	return "-" + in.Variant
 }
 
 // ---- generation ----
@@ -496,8 +576,143 @@ var c08Media = []string{"text/plain", "application/json", "application/xml", "te
 var c08Params = []string{"; charset=utf-8", ";v=2", "; q=0.5", ";charset=UTF-8;x=1"}
 var c08Realms = []string{"", "API", "my realm", `a"b`, `back\slash`, `"`, `\"`, "x"}
 
+var c08Variants = []string{"", "ctx", "default", "default-ctx"}
+
+func c08B64(s string) string { return base64.StdEncoding.EncodeToString([]byte(s)) }
+
+// Authorization header values, as a client may send them (no surrounding blanks). What each yields is decided by
+// net/http (c08AttemptKind), not by this table.
+var c08AuthzFixed = []string{
+	// the Basic scheme without usable credentials
+	"Basic",
+	"Basic !!!",
+	"Basic " + c08B64("u"),
+	"Basic " + c08B64("admin-without-colon"),
+	"Basic " + c08B64("u:good") + "=",
+	"Basic " + strings.TrimRight(c08B64("u:goo"), "="),
+	"Basic  " + c08B64("u:good"),
+	"Basic " + c08B64("u:good") + " trailing",
+	"Basic " + base64.URLEncoding.EncodeToString([]byte("u:good??>>")),
+	"basic " + c08B64("nocolon"),
+	"BASIC",
+	// other schemes
+	"Bearer x",
+	"Bearer " + c08B64("u:good"),
+	"Bearer",
+	`Digest username="u", realm="API", nonce="abc", response="def"`,
+	"Negotiate YIIB",
+	"Token token=abc",
+	"BasicX " + c08B64("u:good"),
+	c08B64("u:good"),
+	"Basic\u00a0" + c08B64("u:good"),
+	// usable credentials in unusual dress (accepted or refused by the authentication function)
+	"basic " + c08B64("u:good"),
+	"BASIC " + c08B64("u:bad"),
+	"Basic " + c08B64(":good"),
+	"Basic " + c08B64("u:"),
+	"Basic " + c08B64("u:good:more"),
+	// header present, no value
+	"",
+}
+
+// c08RandAuthz draws an Authorization value: a random colon-free (or not) text under the Basic scheme, broken base64,
+// a random other scheme with a token, or one of the fixed values.
+func c08RandAuthz(r *rand.Rand) string {
+	word := func(alpha string, n int) string {
+		b := make([]byte, n)
+		for i := range b {
+			b[i] = alpha[r.Intn(len(alpha))]
+		}
+		return string(b)
+	}
+	const text = "abcdefghijklmnopqrstuvwxyzABCXYZ0123456789 ._-@/+"
+	const tok = "abcdefghijklmnopqrstuvwxyzABCDEFGHIJKLMNOPQRSTUVWXYZ0123456789-._~+/"
+	scheme := []string{"Basic", "Basic", "basic", "BASIC", "bAsIc"}[r.Intn(5)]
+	switch r.Intn(8) {
+	case 0, 1: // text without a colon
+		return scheme + " " + c08B64(word(text, 1+r.Intn(12)))
+	case 2: // not base64
+		return scheme + " " + word("!#$%&*()[]{}<>?^|", 1+r.Intn(6))
+	case 3: // base64 cut short or with a stray character
+		b := c08B64("u:" + word(text, 1+r.Intn(8)))
+		if r.Intn(2) == 0 && len(b) > 3 {
+			return scheme + " " + b[:len(b)-1-r.Intn(2)] // wrong length or padding
+		}
+		i := r.Intn(len(b))
+		return scheme + " " + b[:i] + "*" + b[i:]
+	case 4, 5: // another scheme
+		other := []string{"Bearer", "Digest", "Negotiate", "NTLM", "Token", "AWS4-HMAC-SHA256", "Basicauth", "Basi", "bearer", "X-" + word("abcxyz", 3)}[r.Intn(10)]
+		if r.Intn(6) == 0 {
+			return other
+		}
+		if r.Intn(3) == 0 {
+			return other + " " + c08B64("u:good")
+		}
+		return other + " " + word(tok, 1+r.Intn(20))
+	case 6: // credentials the authentication function is asked about
+		return scheme + " " + c08B64(word("uU:", r.Intn(3))+":"+[]string{"good", "bad", "", "good ", "Good"}[r.Intn(5)])
+	}
+	return c08AuthzFixed[r.Intn(len(c08AuthzFixed))]
+}
+
+// c08Attempt draws the credentials of a basic-auth case.
+func c08Attempt(r *rand.Rand, in *c08In) {
+	switch r.Intn(8) {
+	case 0:
+		in.Attempt = "none"
+	case 1:
+		in.Attempt = "bad"
+	case 2, 3:
+		in.Attempt = "good"
+	default:
+		in.Attempt = "raw"
+		in.Authz = Bs(c08RandAuthz(r))
+	}
+	in.Variant = c08Variants[r.Intn(len(c08Variants))]
+	if r.Intn(2) == 0 {
+		in.Variant = ""
+	}
+}
+
 func (c08) Enumerate(tier string) []any {
 	var out []any
+	// failed and accepted basic-auth attempts: authenticator variants x realms x credentials, through the handler and
+	// through a direct Respond of an error after the authenticator examined the request
+	n := 0
+	for _, variant := range c08Variants {
+		realms := []string{"", "my realm", `a"b`, `back\slash`}
+		if strings.HasPrefix(variant, "default") {
+			realms = []string{""}
+		}
+		for _, realm := range realms {
+			atts := []c08In{{Attempt: "none"}, {Attempt: "bad"}, {Attempt: "good"}}
+			for _, a := range c08AuthzFixed {
+				atts = append(atts, c08In{Attempt: "raw", Authz: Bs(a)})
+			}
+			for _, a := range atts {
+				for _, kind := range []string{"serve", "direct"} {
+					n++
+					ps := c08ProduceSets[1+n%3]
+					in := c08In{Kind: kind, Defaults: "json", Method: c08Methods[n%3], Codes: []int{200}, Data: "value", Produces: toBs(ps),
+						Realm: Bs(realm), Variant: variant, Attempt: a.Attempt, Authz: a.Authz, ErrCode: []int{401, 403}[n%2]}
+					for _, p := range ps {
+						in.Register = append(in.Register, Bs(strings.SplitN(p, ";", 2)[0]))
+					}
+					if n%4 == 0 {
+						in.Lines = []Bs{"text/plain;q=0.9, */*;q=0.1"}
+					}
+					if kind == "serve" {
+						in.Auth = "basic"
+					} else {
+						in.Route = "real"
+						in.Arg = toBs(ps)
+						in.Data = []string{"err:401", "err:401", "err:403", "value"}[n%4]
+					}
+					out = append(out, in)
+				}
+			}
+		}
+	}
 	for _, m := range c08Methods {
 		for _, cs := range c08CodeSets[:7] {
 			for _, d := range c08DataKinds {
@@ -641,15 +856,18 @@ func (c08) Gen(r *rand.Rand, tier string, i int) any {
 		}
 		if r.Intn(3) == 0 {
 			in.Realm = Bs(c08Realms[r.Intn(len(c08Realms))])
-			in.Attempt = []string{"none", "bad", "good"}[r.Intn(3)]
+			c08Attempt(r, &in)
 			in.ErrCode = 401
+			if r.Intn(2) == 0 {
+				in.Data = []string{"err:401", "err:403", "err:composite:401"}[r.Intn(3)]
+			}
 		}
 		return in
 	}
 	if r.Intn(4) == 0 {
 		in.Auth = "basic"
 		in.Realm = Bs(c08Realms[r.Intn(len(c08Realms))])
-		in.Attempt = []string{"none", "bad", "good", "good"}[r.Intn(4)]
+		c08Attempt(r, &in)
 		in.ErrCode = []int{401, 403, 401}[r.Intn(3)]
 	}
 	return in
